@@ -140,6 +140,32 @@ func TestPropOverlay(t *testing.T) {
 		if !sameInts(render(full, m, m.total), render(filer.ViewFromVisibleIntervals(vis, 0, math.MaxInt64), m, m.total)) {
 			t.Fatalf("%s: ViewFromChunks and ViewFromVisibleIntervals disagree", desc)
 		}
+
+		// ---- the content is a function of the chunk set: listing the same chunks in another
+		// order (as manifestizing, compaction or a client re-sending them does) changes nothing
+		if len(chunks) >= 2 {
+			order := make([]int, len(chunks))
+			for i := range order {
+				order[i] = i
+			}
+			switch rapid.SampledFrom([]string{"reversed", "shuffled", "shuffled"}).Draw(t, "relistOrder") {
+			case "reversed":
+				for i := range order {
+					order[i] = len(chunks) - 1 - i
+				}
+			default:
+				order = rapid.Permutation(order).Draw(t, "relistPerm")
+			}
+			relisted := make([]*filer_pb.FileChunk, len(chunks))
+			for i, j := range order {
+				relisted[i] = chunks[j]
+			}
+			rviews := filer.ViewFromChunks(noLookup, relisted, 0, math.MaxInt64)
+			checkViews(t, m, rviews, 0, math.MaxInt32, desc+" views of the re-ordered list")
+			if !sameInts(render(rviews, m, m.total), render(full, m, m.total)) {
+				t.Fatalf("%s: content depends on the order in which the chunks are listed (order %v): views before %s after %s", desc, order, viewsString(full), viewsString(rviews))
+			}
+		}
 		var ws []window
 		exhaustiveWindows := m.total <= 24
 		if exhaustiveWindows {
@@ -269,6 +295,20 @@ func TestPropOverlay(t *testing.T) {
 				manifestDesc += fmt.Sprintf("+nest(%d..%d)", from, from+cnt)
 			}
 			usedManifest = gotManifests > 0 || levels > 1
+			// a chunk list may hold manifests and plain chunks in any order (a later manifestize
+			// round moves the manifests to the front): re-order the top level, then maybe fold again
+			if len(folded) >= 2 && rapid.Bool().Draw(t, "relistFolded") {
+				folded = rapid.Permutation(folded).Draw(t, "foldedPerm")
+				manifestDesc += "+relisted"
+				if rapid.Bool().Draw(t, "secondRound") {
+					f2 := rapid.IntRange(2, 3).Draw(t, "mergeFactor2")
+					folded, err = filer.VerifMaybeManifestize(save, folded, f2)
+					if err != nil {
+						t.Fatalf("%s%s: second manifestize round: %v", desc, manifestDesc, err)
+					}
+					manifestDesc += fmt.Sprintf("+round2(factor=%d)", f2)
+				}
+			}
 			if mkey-base-uint64(len(specs)) > 15 {
 				t.Fatalf("harness: more than 15 manifest keys used")
 			}
